@@ -47,19 +47,59 @@ structure Decl where
   id : String
   accepts : List Nat
   flavour : Flavour
+  mech : TMech
+
+/-- the catalogue entry the Go harness configures for a declaration (`facMechanism`): its type and what the
+prototype shows; the override payloads of the older streams (tags below 100, fixed per type, acceptance declared by
+the generator): tag 1 is the one whose effect is visible -/
+def typedMech (kind : Kind) (typ id : String) (accepts : List Nat) : E TMech := do
+  let (t, proto, ovr) ← (match kind, typ with
+    | .authn, "generic" => pure (MType.generic, ({} : Shown), ({ fallback := false } : Shown))
+    | .authn, "anonymous" => pure (.anonymous, { subject := "anon".toList }, { subject := "ovr".toList })
+    | .authz, "remote" => pure (.remote, { values := [("v".toList, "base".toList)] }, { values := [("v".toList, "ovr".toList)] })
+    | .ctx, "generic" => pure (.genericCtx, { values := [("v".toList, "base".toList)] }, { values := [("v".toList, "ovr".toList)] })
+    | .fin, "header" => pure (.header, { headers := [("X-Fin".toList, (id ++ "/{{ .Subject.ID }}/base").toList)] },
+                              { headers := [("X-Fin".toList, (id ++ "/{{ .Subject.ID }}/ovr").toList)] })
+    | .eh, "redirect" => pure (.redirect, {}, {})
+    | .eh, "default" => pure (.dflt, {}, {})
+    | .eh, "www_authenticate" => pure (.wwwAuthenticate, { realm := "base".toList }, { realm := "base".toList })
+    | _, _ => throw s!"catalogue: unsupported mechanism type {typ}" : E (MType × Shown × Shown))
+  pure { type := t, proto := proto, legacy := accepts.map fun n => (n, if n == 1 then ovr else proto) }
 
 def parseDecl (j : Json) : E Decl := do
   let kind ← parseKind (← str j "kind")
   let typ ← str j "type"
+  let id ← str j "id"
+  let accepts ← nats j "accepts"
   let fl : Flavour := match kind, typ with
     | .authn, "anonymous" => .constant
     | .eh, "default" => .passthrough
+    | .eh, "www_authenticate" => .challenge
     | .eh, _ => .redirect
     | _, _ => .remote
-  pure ⟨kind, ← str j "id", ← nats j "accepts", fl⟩
+  pure ⟨kind, id, accepts, fl, ← typedMech kind typ id accepts⟩
 
-def catalogue (ds : List Decl) : Catalogue := fun k id =>
-  (ds.find? (fun d => d.kind == k && d.id == id)).map (·.accepts)
+/-- a decoded `config` value of the case (JSON) as a `Val`; the entries of an object come sorted by key -/
+partial def toVal (j : Json) : E Val :=
+  match j with
+  | .null => pure .null
+  | .bool b => pure (.bool b)
+  | .str s => pure (.str s.toList)
+  | .num n => if n.exponent == 0 then pure (.num n.mantissa) else throw "override values: integers only"
+  | .arr a => do
+    let vs ← a.toList.mapM toVal
+    pure (.list (vs.foldr Vals.cons .nil))
+  | .obj m => do
+    let kvs ← m.toList.mapM fun kv => do pure (kv.1.toList, ← toVal kv.2)
+    pure (.obj (kvs.foldr (fun kv acc => Flds.cons kv.1 kv.2 acc) .nil))
+
+/-- tags from 100 on name the values of the case's `ovr` table -/
+def typedBase : Nat := 100
+
+def typed (ds : List Decl) (ovr : List Val) : Typed :=
+  { mech := fun k id => (ds.find? (fun d => d.kind == k && d.id == id)).map (·.mech)
+    ovr := fun n => if n < typedBase then none else ovr[n - typedBase]?
+    tags := (List.range ovr.length).map (· + typedBase) }
 
 def flavours (ds : List Decl) : Flavours := fun k id =>
   ((ds.find? (fun d => d.kind == k && d.id == id)).map (·.flavour)).getD .remote
@@ -94,22 +134,22 @@ def parseRule (r : Json) : E RawRule := do
 def companion : RuleDef := { forwardTo := true, execute := [{ authenticator := some "anon" }] }
 
 def traceJson (rule : String) (t : Trace) : Json :=
-  Json.mkObj [("rule", jstr rule), ("calls", jstrs t.calls), ("fin", jstrs t.fin), ("ret", jstr t.ret),
+  Json.mkObj [("rule", jstr rule), ("calls", jstrs t.calls), ("fin", jstrs t.fin), ("hdr", jstrs t.hdr), ("ret", jstr t.ret),
     ("perr", jstr t.perr), ("upstream", Json.bool t.upstream)]
 
 def noRule : Json := Json.mkObj [("rule", jstr "none:no_rule")]
 
 /-- the six probe requests against the rule set {main, companion} and the default rule -/
-def probes (fl : Flavours) (main comp : Effective) (dflt : Option Pipelines) : List Json :=
+def probes (sh : Showing) (fl : Flavours) (main comp : Effective) (dflt : Option Pipelines) : List Json :=
   let fallback (p : Probe) : Json :=
     match dflt with
-    | some d => traceJson "default" (execute fl { toPipelines := d } p)
+    | some d => traceJson "default" (execute sh fl { toPipelines := d } p)
     | none => noRule
-  [ traceJson "main" (execute fl main ⟨false, false⟩),
-    traceJson "main" (execute fl main ⟨false, true⟩),
-    traceJson "main" (execute fl main ⟨true, false⟩),
-    traceJson "main" (execute fl main ⟨true, true⟩),
-    (if main.backtracking then traceJson "companion" (execute fl comp ⟨true, false⟩) else fallback ⟨true, false⟩),
+  [ traceJson "main" (execute sh fl main ⟨false, false⟩),
+    traceJson "main" (execute sh fl main ⟨false, true⟩),
+    traceJson "main" (execute sh fl main ⟨true, false⟩),
+    traceJson "main" (execute sh fl main ⟨true, true⟩),
+    (if main.backtracking then traceJson "companion" (execute sh fl comp ⟨true, false⟩) else fallback ⟨true, false⟩),
     fallback ⟨true, false⟩ ]
 
 def rejectedCfg : Json := Json.mkObj [("factory", jstr "rejected")]
@@ -143,7 +183,17 @@ def allStages : List Stage := [.authentication, .handling, .finalization, .error
 def keyCount (s : Step) : Nat :=
   [s.authenticator, s.authorizer, s.contextualizer, s.finalizer, s.errorHandler].countP (·.isSome)
 
-def ruleStats (d : Option DefaultRule) (raw : RawRule) (reason : String) : Json :=
+/-- the steps of a rule that carry a typed override (a tag naming a value of the `ovr` table), and those among
+them whose mechanism exists and refuses that value -/
+def typedSteps (T : Typed) (r : RuleDef) : Nat × Nat :=
+  let refs : List (Kind × String × Option Nat) :=
+    r.execute.filterMap (fun s => s.target.map fun t => (t.1, t.2, s.config)) ++
+    r.onError.filterMap (fun s => s.errorHandler.map fun id => (Kind.eh, id, s.config))
+  let typedRefs := refs.filter fun x => match x.2.2 with | some n => n ≥ typedBase | none => false
+  (typedRefs.length,
+   (typedRefs.filter fun x => (T.mech x.1 x.2.1).isSome && (T.variant x.1 x.2.1 x.2.2).isNone).length)
+
+def ruleStats (T : Typed) (d : Option DefaultRule) (raw : RawRule) (reason : String) : Json :=
   let r := raw.decode
   let ownSt := allStages.filter (fun st => !(own st r.execute r.onError).isEmpty)
   let inhSt := allStages.filter (fun st => (own st r.execute r.onError).isEmpty && !(ownDefault st d).isEmpty)
@@ -162,11 +212,17 @@ def ruleStats (d : Option DefaultRule) (raw : RawRule) (reason : String) : Json 
     ("ordered", Json.bool (orderedFrom 0 r.execute)),
     ("multi_key", Json.bool ((r.execute ++ r.onError).any (fun s => keyCount s > 1))),
     ("overrides", jnat ((r.execute ++ r.onError).countP (·.config.isSome))),
+    ("typed", jnat (typedSteps T r).1),
+    ("typed_refused", jnat (typedSteps T r).2),
     ("bt_own", Json.bool r.backtracking.isSome)]
 
 def run (c : Json) : E Json := do
   let decls ← (← arr c "cat").mapM parseDecl
-  let cat := catalogue decls
+  -- the typed catalogue: what every mechanism shows, and the override VALUES the steps name by tag; the abstract
+  -- catalogue of the rule factory model is derived from it (`WithConfig` accepts a tag iff it accepts its value)
+  let T := typed decls (← (arrD c "ovr").mapM toVal)
+  let cat := T.catalogue
+  let sh : Showing := fun m => (T.variant m.kind m.id m.config).getD {}
   let fl := flavours decls
   let proxy := strD c "mode" "decision" == "proxy"
   -- rule sets of kubernetes resources are not validated by heimdall's rule set decoder
@@ -182,7 +238,7 @@ def run (c : Json) : E Json := do
       | .ok comp =>
         let loads := results.map fun r =>
           match r with
-          | .ok e => acceptedRule (probes fl e comp f.dflt)
+          | .ok e => acceptedRule (probes sh fl e comp f.dflt)
           | .error _ => rejectedRule
         let reasons := results.map fun r =>
           match r with
@@ -203,14 +259,14 @@ def run (c : Json) : E Json := do
         let comp := Spec.effective dd companion
         (loadedJson (results.map fun r =>
           match r with
-          | some e => acceptedRule (probes fl e comp f.dflt)
+          | some e => acceptedRule (probes sh fl e comp f.dflt)
           | none => rejectedRule), dd)
   let stats := Json.mkObj [
     ("config_reason", jstr cfgReason),
     ("has_default", Json.bool d.isSome),
     ("default_execute_spelled", jstr (match d with | some raw => spelling raw.execute | none => "-")),
     ("default_on_error_spelled", jstr (match d with | some raw => spelling raw.onError | none => "-")),
-    ("rules", jarr ((rs.zip reasons).map fun (raw, why) => ruleStats dd raw why))]
+    ("rules", jarr ((rs.zip reasons).map fun (raw, why) => ruleStats T dd raw why))]
   pure (Json.mkObj [("res", res), ("spec", spec), ("stats", stats)])
 
 end Driver.Factory
